@@ -593,4 +593,1007 @@ theorem trimBoth_spec (R : List FSp) (hR : NonNegL R) (x y : FSp) (hx : R.head? 
     rw [← List.append_assoc (coverSp x0), e1, List.take_length_add_append]
     rw [List.append_assoc, List.drop_append_of_le_length (by simp; omega)]
 
+
+/-! ### remap_with: selecting and trimming the spans for map positions [zlo, zhi) -/
+
+theorem slice_decomp (A R B : List FSp) (hA : NonNegL A) (hR : NonNegL R) (zlo zhi : Int)
+    (h1 : lenL A ≤ zlo) (h2 : zlo ≤ zhi) (h3 : zhi ≤ lenL A + lenL R) :
+    ((coverL (A ++ R ++ B)).drop zlo.toNat).take (zhi - zlo).toNat
+      = ((coverL R).take (zhi - lenL A).toNat).drop (zlo - lenL A).toNat := by
+  have hAl := coverL_length hA
+  have hRl := coverL_length hR
+  have hA0 := lenL_nonneg hA
+  simp only [coverL_append, List.append_assoc]
+  have e1 : zlo.toNat = (coverL A).length + (zlo - lenL A).toNat := by omega
+  rw [e1, List.drop_length_add_append, List.take_drop]
+  have e2 : (zlo - lenL A).toNat + (zhi - zlo).toNat = (zhi - lenL A).toNat := by omega
+  rw [e2, List.take_append_of_le_length (by omega)]
+
+/-- the part of `remap_with` that selects and trims the spans for map positions `[zlo, zhi)` -/
+def remapCore (sp : List FSp) (zlo zhi : Int) : Except FErr (List FSp) :=
+  let offs := offsetsFrom 0 sp
+  let first : Int := (bisectRight offs zlo : Int) - 1
+  let firstN := first.toNat
+  let last : Int := (bisectLeft (offs.drop firstN) zhi + firstN : Nat) - 1
+  let result := (sp.take (last + 1).toNat).drop firstN
+  match result with
+  | [] => .ok []
+  | _ => trimBoth result
+      (offs.getD last.toNat 0 + (sp.getD last.toNat (.lost 0)).length - zhi)
+      (zlo - offs.getD firstN 0)
+
+theorem remapSpan_core (s e : Int) (rev : Bool) (m : FM) :
+    remapSpan s e rev m =
+      match (offsets m).getLast?, m.spans.getLast? with
+      | some lo, some ls =>
+        if ((bisectRight (offsets m) (max 0 s) : Nat) : Int) - 1 < 0 then .error .valueError else
+        match remapCore m.spans (max 0 s) (min (lo + ls.length) e) with
+        | .error er => .error er
+        | .ok res =>
+          let res := if s < 0 then FSp.lost (-s) :: res else res
+          let res := if e > lo + ls.length then res ++ [FSp.lost (e - (lo + ls.length))] else res
+          .ok (if rev then (res.map FSp.reversed).reverse else res)
+      | _, _ => .error .indexError := by
+  rfl
+
+theorem lenL_take_succ (l : List FSp) (k : Nat) (hk : k < l.length) (d : FSp) :
+    lenL (l.take k) + (l.getD k d).length = lenL (l.take (k + 1)) := by
+  rw [List.take_add_one, lenL_append, List.getD_eq_getElem?_getD, List.getElem?_eq_getElem hk]
+  simp only [Option.toList_some, Option.getD_some, lenL_cons, lenL_nil]; omega
+
+theorem remapCore_spec (sp : List FSp) (hN : NonNegL sp) (hne : sp ≠ []) (zlo zhi : Int)
+    (h0 : 0 ≤ zlo) (h1 : zlo ≤ zhi) (h2 : zhi ≤ lenL sp) :
+    ∃ parts, remapCore sp zlo zhi = .ok parts ∧
+      coverL parts = ((coverL sp).drop zlo.toNat).take (zhi - zlo).toNat := by
+  obtain ⟨b1, b2, b3, b4⟩ := bisectRight_spec sp hN 0 zlo h0 hne
+  unfold remapCore
+  simp only []
+  generalize hk : bisectRight (offsetsFrom 0 sp) zlo = k at *
+  obtain ⟨k1, rfl⟩ : ∃ k1, k = k1 + 1 := ⟨k - 1, by omega⟩
+  have ef : ((↑(k1 + 1) : Int) - 1).toNat = k1 := by omega
+  rw [ef, offsetsFrom_drop]
+  simp only [Nat.add_sub_cancel] at b3
+  obtain ⟨c1, c2, c3⟩ := bisectLeft_spec (sp.drop k1) (hN.drop k1) (0 + lenL (sp.take k1)) zhi
+  generalize hc : bisectLeft (offsetsFrom (0 + lenL (sp.take k1)) (sp.drop k1)) zhi = cnt at *
+  have el : ((↑(cnt + k1) : Int) - 1 + 1).toNat = cnt + k1 := by omega
+  rw [el, List.drop_take, Nat.add_sub_cancel]
+  simp only [List.length_drop] at c1 c3
+  cases cnt with
+  | zero =>
+    simp only [List.take_zero]
+    refine ⟨[], rfl, ?_⟩
+    have := c3 (by omega)
+    simp only [List.take_zero, lenL_nil] at this
+    have : (zhi - zlo).toNat = 0 := by omega
+    rw [this]; simp
+  | succ c =>
+    have hne' : List.take (c + 1) (List.drop k1 sp) ≠ [] := by
+      intro h
+      have := congrArg List.length h
+      simp at this; omega
+    split
+    · rename_i h; exact absurd h hne'
+    · clear hne'
+      have et1 : ((↑(c + 1 + k1) : Int) - 1).toNat = c + k1 := by omega
+      rw [et1, offsetsFrom_getD _ _ _ (by omega), offsetsFrom_getD _ _ _ (by omega)]
+      have := lenL_take_succ sp (c + k1) (by omega) (.lost 0)
+      -- decomposition sp = A ++ R ++ B
+      have hdec : sp = sp.take k1 ++ (sp.drop k1).take (c + 1) ++ (sp.drop k1).drop (c + 1) := by
+        rw [List.append_assoc, List.take_append_drop, List.take_append_drop]
+      have hlen : lenL (sp.take (c + k1 + 1)) = lenL (sp.take k1) + lenL ((sp.drop k1).take (c + 1)) := by
+        rw [show c + k1 + 1 = k1 + (c + 1) by omega, List.take_add, lenL_append]
+      have hlen' : lenL (sp.take (c + k1)) = lenL (sp.take k1) + lenL ((sp.drop k1).take c) := by
+        rw [show c + k1 = k1 + c by omega, List.take_add, lenL_append]
+      have c2' := c2 (by omega)
+      simp only [Nat.add_sub_cancel] at c2'
+      -- head and last of R
+      have hx : ((sp.drop k1).take (c + 1)).head? = some (sp[k1]'(by omega)) := by
+        rw [List.head?_take, if_neg (by omega), List.head?_drop, List.getElem?_eq_getElem]
+      have hy : ((sp.drop k1).take (c + 1)).getLast? = some (sp[k1 + c]'(by omega)) := by
+        rw [List.getLast?_take, if_neg (by omega)]
+        simp only [Nat.add_sub_cancel, List.getElem?_drop]
+        rw [List.getElem?_eq_getElem (by omega)]; rfl
+      have hRlen : lenL ((sp.drop k1).take (c + 1)) = lenL ((sp.drop k1).take c) + (sp[k1 + c]'(by omega)).length := by
+        rw [List.take_add_one, lenL_append, List.getElem?_drop, List.getElem?_eq_getElem (by omega)]
+        simp
+      have hxlen : zlo - (0 + lenL (sp.take k1)) ≤ (sp[k1]'(by omega)).length := by
+        have q := lenL_take_succ sp k1 (by omega) (.lost 0)
+        simp only [List.getD_eq_getElem?_getD, List.getElem?_eq_getElem (show k1 < sp.length by omega), Option.getD_some] at q
+        by_cases hlt : k1 + 1 < sp.length
+        · have := b4 hlt; omega
+        · have e : k1 + 1 = sp.length := by omega
+          rw [e, List.take_length] at q
+          omega
+      have hRtot : zhi ≤ lenL (sp.take k1) + lenL ((sp.drop k1).take (c + 1)) := by
+        by_cases hlt : c + 1 < sp.length - k1
+        · have := c3 hlt; omega
+        · have e : (sp.drop k1).take (c + 1) = sp.drop k1 := List.take_of_length_le (by simp; omega)
+          rw [e, ← lenL_append, List.take_append_drop]; exact h2
+      obtain ⟨parts, hp, hcov⟩ := trimBoth_spec ((sp.drop k1).take (c + 1)) ((hN.drop k1).take _) _ _ hx hy
+        (0 + lenL (sp.take (c + k1)) + (sp.getD (c + k1) (.lost 0)).length - zhi)
+        (zlo - (0 + lenL (sp.take k1))) (by omega) (by omega) hxlen (by omega) (by omega)
+      refine ⟨parts, hp, ?_⟩
+      rw [hcov]
+      conv => rhs; rw [hdec]
+      rw [slice_decomp _ _ _ (hN.take k1) ((hN.drop k1).take _) zlo zhi (by omega) h1 hRtot]
+      congr 3 <;> omega
+
+
+/-! ### remap_with: full specification -/
+
+/-- what map position `j` of a cover list points to (`none` = lost or outside the map) -/
+def lookup (c : List (Option Int)) (j : Int) : Option Int :=
+  if j < 0 then none else (c[j.toNat]?).join
+
+/-- composition: position of the index map ↦ position of `m` ↦ parent position -/
+def compose (c : List (Option Int)) : Option Int → Option Int
+  | none => none
+  | some j => lookup c j
+
+/-- `[f s, f (s+1), …, f (e-1)]` -/
+def irange (s e : Int) (f : Int → Option Int) : List (Option Int) :=
+  (List.range (e - s).toNat).map (fun (i : Nat) => f (s + (i : Int)))
+
+theorem irange_split (s t e : Int) (f : Int → Option Int) (h1 : s ≤ t) (h2 : t ≤ e) :
+    irange s e f = irange s t f ++ irange t e f := by
+  unfold irange
+  apply List.ext_getElem
+  · simp; omega
+  · intro i h1 h2
+    simp at h1
+    simp only [List.getElem_map, List.getElem_range, List.getElem_append]
+    split
+    · simp
+    · rename_i h; simp at h
+      simp only [List.length_map, List.length_range]
+      congr 1; omega
+
+theorem irange_const_none (s e : Int) (f : Int → Option Int) (h : ∀ j, s ≤ j → j < e → f j = none) :
+    irange s e f = List.replicate (e - s).toNat none := by
+  unfold irange
+  apply List.ext_getElem
+  · simp
+  · intro i h1 h2
+    simp at h1
+    simp only [List.getElem_map, List.getElem_range, List.getElem_replicate]
+    exact h _ (by omega) (by omega)
+
+theorem irange_lookup (c : List (Option Int)) (a b : Int) (h0 : 0 ≤ a) (h1 : a ≤ b) (h2 : b ≤ c.length) :
+    irange a b (lookup c) = (c.drop a.toNat).take (b - a).toNat := by
+  unfold irange
+  apply List.ext_getElem
+  · simp; omega
+  · intro i h1 h2
+    simp at h1
+    simp only [List.getElem_map, List.getElem_range, List.getElem_take, List.getElem_drop, lookup]
+    rw [if_neg (by omega)]
+    have : (a + (i : Int)).toNat = a.toNat + i := by omega
+    rw [this, List.getElem?_eq_getElem (by omega)]
+    rfl
+
+theorem coverSp_span_irange (s e : Int) (rv : Bool) :
+    coverSp (.span s e rv) = if rv then (irange s e some).reverse else irange s e some := rfl
+
+theorem irange_map (s e : Int) (f : Int → Option Int) (g : Option Int → Option Int) :
+    (irange s e f).map g = irange s e (fun j => g (f j)) := by
+  simp [irange]
+
+theorem coverSp_reversed (x : FSp) : coverSp x.reversed = (coverSp x).reverse := by
+  cases x with
+  | lost n => simp [FSp.reversed, coverSp]
+  | span s e rv => cases rv <;> simp [FSp.reversed, coverSp]
+
+theorem coverL_map_reversed_reverse (l : List FSp) :
+    coverL ((l.map FSp.reversed).reverse) = (coverL l).reverse := by
+  induction l with
+  | nil => rfl
+  | cons x xs ih => simp [ih, coverSp_reversed]
+
+theorem offsetsFrom_concat (pos : Int) (init : List FSp) (y : FSp) :
+    offsetsFrom pos (init ++ [y]) = offsetsFrom pos init ++ [pos + lenL init] := by
+  induction init generalizing pos with
+  | nil => simp [offsetsFrom]
+  | cons x xs ih => simp only [List.cons_append, offsetsFrom, ih, lenL_cons]; congr 3; omega
+
+theorem getLast_facts (sp : List FSp) (hne : sp ≠ []) :
+    ∃ lo ls, (offsetsFrom 0 sp).getLast? = some lo ∧ sp.getLast? = some ls ∧ lo + ls.length = lenL sp := by
+  rcases List.eq_nil_or_concat sp with rfl | ⟨init, y, rfl⟩
+  · exact absurd rfl hne
+  · simp only [List.concat_eq_append]
+    refine ⟨0 + lenL init, y, ?_, ?_, ?_⟩
+    · rw [offsetsFrom_concat, List.getLast?_concat]
+    · rw [List.getLast?_concat]
+    · simp
+
+/-- `Span(s, e, rev).remap_with(m)`: position by position, the result is `m`'s cover looked up at
+    the span's positions (lost where the span pokes outside `[0, len m)`) -/
+theorem remapSpan_spec (m : FM) (hN : NonNeg m) (hne : m.spans ≠ []) (s e : Int) (rv : Bool)
+    (h1 : s ≤ e) (h2 : 0 ≤ e) (h3 : s ≤ len m) :
+    ∃ parts, remapSpan s e rv m = .ok parts ∧
+      coverL parts = (coverSp (.span s e rv)).map (compose (cover m)) := by
+  obtain ⟨lo, ls, hlo, hls, hL⟩ := getLast_facts m.spans hne
+  rw [remapSpan_core]
+  have hlo' : (offsets m).getLast? = some lo := hlo
+  simp only [hlo', hls]
+  obtain ⟨b1, _, _, _⟩ := bisectRight_spec m.spans hN 0 (max 0 s) (by omega) hne
+  have b1' : 1 ≤ bisectRight (offsets m) (max 0 s) := b1
+  rw [if_neg (by omega), hL]
+  rw [← len_eq_lenL] at hL ⊢
+  have hL0 : 0 ≤ len m := lenL_nonneg hN
+  have hLL : len m = lenL m.spans := rfl
+  obtain ⟨core, hc, hcov⟩ := remapCore_spec m.spans hN hne (max 0 s) (min (len m) e) (by omega) (by omega) (by omega)
+  rw [hc]
+  simp only []
+  refine ⟨_, rfl, ?_⟩
+  have hlen : ((cover m).length : Int) = len m := coverL_length hN
+  rw [← cover_eq_coverL] at hcov
+  rw [← irange_lookup _ _ _ (by omega) (by omega) (by omega)] at hcov
+  -- cover of the padded result
+  have hres : coverL (if e > len m then (if s < 0 then FSp.lost (-s) :: core else core) ++ [FSp.lost (e - len m)]
+        else if s < 0 then FSp.lost (-s) :: core else core) = irange s e (lookup (cover m)) := by
+    rw [irange_split s (max 0 s) e _ (by omega) (by omega), irange_split (max 0 s) (min (len m) e) e _ (by omega) (by omega)]
+    rw [irange_const_none s (max 0 s) _ (by intro j _ hj; simp only [lookup]; rw [if_pos (by omega)])]
+    rw [irange_const_none (min (len m) e) e _ (by
+      intro j hj hj2; simp only [lookup]; rw [if_neg (by omega), List.getElem?_eq_none (by omega)]; rfl)]
+    rw [← hcov]
+    by_cases ha : e > len m <;> by_cases hb : s < 0 <;>
+      simp only [ha, hb, if_true, if_false, coverL_append, coverL_cons, coverL_nil, coverSp, List.append_nil]
+    · have e1 : (max 0 s - s).toNat = (-s).toNat := by omega
+      have e2 : (e - min (len m) e).toNat = (e - len m).toNat := by omega
+      rw [e1, e2]; simp only [List.append_assoc]
+    · have e1 : (max 0 s - s).toNat = 0 := by omega
+      have e2 : (e - min (len m) e).toNat = (e - len m).toNat := by omega
+      rw [e1, e2]; simp only [List.replicate_zero, List.nil_append]
+    · have e1 : (max 0 s - s).toNat = (-s).toNat := by omega
+      have e2 : (e - min (len m) e).toNat = 0 := by omega
+      rw [e1, e2]; simp only [List.replicate_zero, List.append_nil]
+    · have e1 : (max 0 s - s).toNat = 0 := by omega
+      have e2 : (e - min (len m) e).toNat = 0 := by omega
+      rw [e1, e2]; simp only [List.replicate_zero, List.nil_append, List.append_nil]
+  have hcomp : (fun j => compose (cover m) (some j)) = lookup (cover m) := rfl
+  cases rv with
+  | false =>
+    simp only [Bool.false_eq_true, if_false]
+    rw [hres, coverSp_span_irange]
+    simp only [Bool.false_eq_true, if_false, irange_map, hcomp]
+  | true =>
+    simp only [if_true]
+    rw [coverL_map_reversed_reverse, hres, coverSp_span_irange]
+    simp only [if_true, List.map_reverse, irange_map, hcomp]
+
+
+/-! ### FeatureMap.__getitem__ -/
+
+/-- an index-map span usable on a map of length `L`: ordered, and overlapping or touching `[0, L]` -/
+def FSp.idxOK (L : Int) : FSp → Prop
+  | .span s e _ => s ≤ e ∧ 0 ≤ e ∧ s ≤ L
+  | .lost _ => True
+instance (L : Int) (x : FSp) : Decidable (x.idxOK L) := by cases x <;> unfold FSp.idxOK <;> infer_instance
+
+/-- an index-map span lying inside `[0, L]` -/
+def FSp.idxIn (L : Int) : FSp → Prop
+  | .span s e _ => 0 ≤ s ∧ s ≤ e ∧ e ≤ L
+  | .lost _ => True
+instance (L : Int) (x : FSp) : Decidable (x.idxIn L) := by cases x <;> unfold FSp.idxIn <;> infer_instance
+
+theorem getitem_go_spec (m : FM) (hN : NonNeg m) (hne : m.spans ≠ []) : ∀ (l : List FSp),
+    (∀ x ∈ l, x.idxOK (len m)) →
+    ∃ sp, getitem.go m l = .ok sp ∧ coverL sp = (coverL l).map (compose (cover m))
+  | [], _ => ⟨[], rfl, rfl⟩
+  | .lost k :: r, h => by
+    obtain ⟨sp, hsp, hc⟩ := getitem_go_spec m hN hne r (fun x hx => h x (List.mem_cons_of_mem _ hx))
+    refine ⟨.lost k :: sp, ?_, ?_⟩
+    · simp only [getitem.go, hsp]; rfl
+    · simp only [coverL_cons, hc, List.map_append, coverSp, List.map_replicate, compose]
+  | .span s e rv :: r, h => by
+    obtain ⟨sp, hsp, hc⟩ := getitem_go_spec m hN hne r (fun x hx => h x (List.mem_cons_of_mem _ hx))
+    have h0 := h (.span s e rv) List.mem_cons_self
+    simp only [FSp.idxOK] at h0
+    obtain ⟨parts, hp, hpc⟩ := remapSpan_spec m hN hne s e rv h0.1 h0.2.1 h0.2.2
+    refine ⟨parts ++ sp, ?_, ?_⟩
+    · simp only [getitem.go, hp, hsp]; rfl
+    · simp only [coverL_cons, coverL_append, hc, hpc, List.map_append]
+
+theorem getitem_spec (m n : FM) (hN : NonNeg m) (hne : m.spans ≠ [])
+    (hn : ∀ x ∈ n.spans, x.idxOK (len m)) :
+    ∃ r, getitem m n = .ok r ∧ r.parentLength = m.parentLength ∧
+      cover r = (cover n).map (compose (cover m)) := by
+  obtain ⟨sp, hsp, hc⟩ := getitem_go_spec m hN hne n.spans hn
+  refine ⟨⟨sp, m.parentLength⟩, ?_, rfl, hc⟩
+  unfold getitem
+  rw [hsp]
+
+
+/-! ### composition with in-range index maps -/
+theorem coverSp_nonneg (x : FSp) (L : Int) (h : x.idxIn L) : ∀ o ∈ coverSp x, ∀ j, o = some j → 0 ≤ j := by
+  cases x with
+  | lost n => intro o ho j hj; subst hj; simp [coverSp] at ho
+  | span s e rv =>
+    simp only [FSp.idxIn] at h
+    intro o ho j hj
+    subst hj
+    rw [coverSp_span_irange] at ho
+    have : some j ∈ irange s e some := by
+      cases rv
+      · simpa using ho
+      · simpa using ho
+    simp only [irange, List.mem_map, List.mem_range] at this
+    obtain ⟨i, _, hi⟩ := this
+    injection hi with hi; omega
+
+theorem compose_eq_of_nonneg (c : List (Option Int)) (l : List (Option Int))
+    (h : ∀ o ∈ l, ∀ j, o = some j → 0 ≤ j) :
+    l.map (compose c) = l.map (fun | none => none | some j => (c[j.toNat]?).join) := by
+  apply List.map_congr_left
+  intro o ho
+  cases o with
+  | none => rfl
+  | some j =>
+    have := h _ ho j rfl
+    simp only [compose, lookup]; rw [if_neg (by omega)]
+
+/-! ### getitem results stay inside the parent -/
+
+theorem normIndex_range (i L : Int) (hL : 0 ≤ L) : 0 ≤ normIndex i L ∧ normIndex i L ≤ L := by
+  unfold normIndex; simp only []; omega
+
+theorem spanSlice_within (x y : FSp) (pl : Int) (oa ob : Option Int) (hw : x.within pl)
+    (h : spanSlice x oa ob = .ok y) : y.within pl := by
+  cases x with
+  | lost n =>
+    simp only [spanSlice] at h
+    injection h with h; subst h; trivial
+  | span s e rv =>
+    simp only [FSp.within] at hw
+    have key : ∃ st en, 0 ≤ st ∧ st ≤ e - s ∧ 0 ≤ en ∧ en ≤ e - s ∧
+        spanSlice (.span s e rv) oa ob = if st > en then .error .assertionError
+          else if rv then .ok (mkSpan (e - en) (e - st) true) else .ok (mkSpan (s + st) (s + en) false) := by
+      cases oa with
+      | none =>
+        cases ob with
+        | none => exact ⟨0, e - s, by omega, by omega, by omega, by omega, rfl⟩
+        | some j =>
+          have := normIndex_range j (e - s) (by omega)
+          exact ⟨0, normIndex j (e - s), by omega, by omega, by omega, by omega, rfl⟩
+      | some i =>
+        have := normIndex_range i (e - s) (by omega)
+        cases ob with
+        | none => exact ⟨normIndex i (e - s), e - s, by omega, by omega, by omega, by omega, rfl⟩
+        | some j =>
+          have := normIndex_range j (e - s) (by omega)
+          exact ⟨normIndex i (e - s), normIndex j (e - s), by omega, by omega, by omega, by omega, rfl⟩
+    obtain ⟨st, en, h1, h2, h3, h4, heq⟩ := key
+    rw [heq] at h
+    split at h
+    · cases h
+    · split at h <;> (injection h with h; subst h; unfold mkSpan; split <;> simp only [FSp.within] <;> omega)
+
+theorem trimEnd_within (R r1 : List FSp) (et pl : Int) (hw : ∀ x ∈ R, x.within pl)
+    (h : trimEnd R et = .ok r1) : ∀ x ∈ r1, x.within pl := by
+  unfold trimEnd at h
+  split at h
+  · split at h
+    · rename_i x hx
+      cases hs : spanSlice x none (some (x.length - et)) with
+      | error er => rw [hs] at h; cases h
+      | ok y =>
+        rw [hs] at h
+        simp only [Except.map] at h
+        injection h with h; subst h
+        have hxm : x ∈ R := List.mem_of_getLast? hx
+        intro z hz
+        simp only [setLast, List.mem_append, List.mem_singleton] at hz
+        rcases hz with hz | rfl
+        · exact hw z (List.dropLast_subset _ hz)
+        · exact spanSlice_within x _ pl _ _ (hw x hxm) hs
+    · injection h with h; subst h; exact hw
+  · injection h with h; subst h; exact hw
+
+theorem trimStart_within (R r2 : List FSp) (st pl : Int) (hw : ∀ x ∈ R, x.within pl)
+    (h : trimStart R st = .ok r2) : ∀ x ∈ r2, x.within pl := by
+  unfold trimStart at h
+  split at h
+  · split at h
+    · rename_i x rest
+      cases hs : spanSlice x (some st) none with
+      | error er => rw [hs] at h; cases h
+      | ok y =>
+        rw [hs] at h
+        simp only [Except.map] at h
+        injection h with h; subst h
+        intro z hz
+        simp only [List.mem_cons] at hz
+        rcases hz with rfl | hz
+        · exact spanSlice_within x _ pl _ _ (hw x List.mem_cons_self) hs
+        · exact hw z (List.mem_cons_of_mem _ hz)
+    · injection h with h; subst h; simp
+  · injection h with h; subst h; exact hw
+
+theorem remapCore_within (sp parts : List FSp) (zlo zhi pl : Int) (hw : ∀ x ∈ sp, x.within pl)
+    (h : remapCore sp zlo zhi = .ok parts) : ∀ x ∈ parts, x.within pl := by
+  unfold remapCore at h
+  simp only [] at h
+  split at h
+  · injection h with h; subst h; simp
+  · unfold trimBoth at h
+    split at h
+    · cases h
+    · rename_i r1 h1
+      refine trimStart_within _ _ _ pl ?_ h
+      refine trimEnd_within _ _ _ pl ?_ h1
+      intro x hx
+      exact hw x (List.mem_of_mem_take (List.mem_of_mem_drop hx))
+
+theorem FSp.reversed_within (x : FSp) (pl : Int) (h : x.within pl) : x.reversed.within pl := by
+  cases x <;> exact h
+
+theorem remapSpan_within (m : FM) (hw : Within m) (s e : Int) (rv : Bool) (parts : List FSp)
+    (h : remapSpan s e rv m = .ok parts) : ∀ x ∈ parts, x.within m.parentLength := by
+  rw [remapSpan_core] at h
+  split at h
+  · split at h
+    · cases h
+    · split at h
+      · cases h
+      · rename_i lo ls _ _ _ _ res hres
+        have hc := remapCore_within _ _ _ _ _ hw hres
+        simp only [] at h
+        injection h with h
+        have key : ∀ x ∈ (if e > lo + ls.length then (if s < 0 then FSp.lost (-s) :: res else res) ++ [FSp.lost (e - (lo + ls.length))]
+            else if s < 0 then FSp.lost (-s) :: res else res), x.within m.parentLength := by
+          intro x hx
+          split at hx <;> split at hx <;> (try simp only [List.mem_append, List.mem_cons, List.not_mem_nil, or_false] at hx)
+          · rcases hx with (rfl | hx) | rfl
+            · trivial
+            · exact hc x hx
+            · trivial
+          · rcases hx with hx | rfl
+            · exact hc x hx
+            · trivial
+          · rcases hx with rfl | hx
+            · trivial
+            · exact hc x hx
+          · exact hc x hx
+        subst h
+        intro x hx
+        split at hx
+        · simp only [List.mem_reverse, List.mem_map] at hx
+          obtain ⟨y, hy, rfl⟩ := hx
+          exact FSp.reversed_within y _ (key y hy)
+        · exact key x hx
+  · cases h
+
+theorem getitem_go_within (m : FM) (hw : Within m) : ∀ (l sp : List FSp),
+    getitem.go m l = .ok sp → ∀ x ∈ sp, x.within m.parentLength
+  | [], sp, h => by simp [getitem.go] at h; subst h; simp
+  | .lost k :: r, sp, h => by
+    simp only [getitem.go] at h
+    cases hr : getitem.go m r with
+    | error er => rw [hr] at h; cases h
+    | ok rest =>
+      rw [hr] at h; injection h with h; subst h
+      intro x hx
+      simp only [List.mem_cons] at hx
+      rcases hx with rfl | hx
+      · trivial
+      · exact getitem_go_within m hw r rest hr x hx
+  | .span s e rv :: r, sp, h => by
+    simp only [getitem.go] at h
+    split at h
+    · cases h
+    · rename_i parts hp
+      cases hr : getitem.go m r with
+      | error er => rw [hr] at h; cases h
+      | ok rest =>
+        rw [hr] at h; injection h with h; subst h
+        intro x hx
+        simp only [List.mem_append] at hx
+        rcases hx with hx | hx
+        · exact remapSpan_within m hw s e rv parts hp x hx
+        · exact getitem_go_within m hw r rest hr x hx
+
+theorem getitem_within (m n r : FM) (hw : Within m) (h : getitem m n = .ok r) :
+    Within r ∧ r.parentLength = m.parentLength := by
+  unfold getitem at h
+  split at h
+  · cases h
+  · rename_i sp hs
+    injection h with h; subst h
+    exact ⟨getitem_go_within m hw n.spans sp hs, rfl⟩
+
+
+/-! ### covered(): the delta dict as a depth function -/
+
+/-- sum of the delta values whose key satisfies `P` -/
+def dsum (P : Int → Bool) : List (Int × Int) → Int
+  | [] => 0
+  | (k, v) :: r => (if P k then v else 0) + dsum P r
+
+theorem dsum_deltaAdd (P : Int → Bool) (k v : Int) (d : List (Int × Int)) :
+    dsum P (deltaAdd k v d) = dsum P d + (if P k then v else 0) := by
+  induction d with
+  | nil => simp [deltaAdd, dsum]
+  | cons x xs ih =>
+    obtain ⟨a, w⟩ := x
+    simp only [deltaAdd]
+    split
+    · rename_i h; subst h
+      simp only [dsum]; split <;> omega
+    · simp only [dsum, ih]; omega
+
+theorem dsum_insertKey (P : Int → Bool) (kv : Int × Int) (L : List (Int × Int)) :
+    dsum P (insertKey kv L) = (if P kv.1 then kv.2 else 0) + dsum P L := by
+  induction L with
+  | nil => simp [insertKey, dsum]
+  | cons x xs ih =>
+    simp only [insertKey]
+    split
+    · simp only [dsum]
+    · obtain ⟨a, w⟩ := x
+      simp only [dsum, ih]; omega
+
+theorem dsum_sorted (P : Int → Bool) (d : List (Int × Int)) :
+    dsum P (d.foldr insertKey []) = dsum P d := by
+  induction d with
+  | nil => rfl
+  | cons x xs ih => obtain ⟨a, w⟩ := x; simp only [List.foldr_cons, dsum_insertKey, ih, dsum]
+
+/-- contribution of the real spans to `dsum P` of the delta dict -/
+def cntP (P : Int → Bool) : List FSp → Int
+  | [] => 0
+  | .lost _ :: r => cntP P r
+  | .span a b _ :: r => ((if P a then 1 else 0) + (if P b then -1 else 0)) + cntP P r
+
+def deltaStep (d : List (Int × Int)) (s : FSp) : List (Int × Int) :=
+  match s with
+  | .lost _ => d
+  | .span a b _ => deltaAdd b (-1) (deltaAdd a 1 d)
+
+theorem dsum_foldl (P : Int → Bool) (l : List FSp) (d : List (Int × Int)) :
+    dsum P (l.foldl deltaStep d) = dsum P d + cntP P l := by
+  induction l generalizing d with
+  | nil => simp [cntP]
+  | cons x xs ih =>
+    cases x with
+    | lost n => simp only [List.foldl_cons, deltaStep, cntP, ih]
+    | span a b rv => simp only [List.foldl_cons, deltaStep, cntP, ih, dsum_deltaAdd]; omega
+
+theorem cntP_true (l : List FSp) : cntP (fun _ => true) l = 0 := by
+  induction l with
+  | nil => rfl
+  | cons x xs ih => cases x <;> simp [cntP, ih]
+
+theorem mem_coverSp (x : FSp) (p : Int) :
+    some p ∈ coverSp x ↔ ∃ s e rv, x = .span s e rv ∧ s ≤ p ∧ p < e := by
+  cases x with
+  | lost n => simp [coverSp]
+  | span s e rv =>
+    rw [coverSp_span_irange]
+    have : some p ∈ irange s e some ↔ s ≤ p ∧ p < e := by
+      simp only [irange, List.mem_map, List.mem_range]
+      constructor
+      · rintro ⟨i, hi, h⟩; injection h with h; omega
+      · intro h; exact ⟨(p - s).toNat, by omega, by congr 1; omega⟩
+    have h2 : (∃ s' e' rv', FSp.span s e rv = .span s' e' rv' ∧ s' ≤ p ∧ p < e') ↔ s ≤ p ∧ p < e := by
+      constructor
+      · rintro ⟨s', e', rv', h, h1⟩; injection h with a b c; subst a; subst b; exact h1
+      · intro h; exact ⟨s, e, rv, rfl, h⟩
+    rw [h2, ← this]
+    cases rv <;> simp
+
+theorem mem_coverL (l : List FSp) (p : Int) :
+    some p ∈ coverL l ↔ ∃ s e rv, .span s e rv ∈ l ∧ s ≤ p ∧ p < e := by
+  simp only [coverL, List.mem_flatMap, mem_coverSp]
+  constructor
+  · rintro ⟨x, hx, s, e, rv, rfl, h⟩; exact ⟨s, e, rv, hx, h⟩
+  · rintro ⟨s, e, rv, hx, h⟩; exact ⟨_, hx, s, e, rv, rfl, h⟩
+
+theorem cntP_le_nonneg (p : Int) (l : List FSp) (hw : ∀ x ∈ l, ∀ s e rv, x = .span s e rv → s ≤ e) :
+    0 ≤ cntP (fun k => decide (k ≤ p)) l ∧
+    (cntP (fun k => decide (k ≤ p)) l ≠ 0 ↔ some p ∈ coverL l) := by
+  induction l with
+  | nil => simp [cntP]
+  | cons x xs ih =>
+    have ih := ih (fun y hy => hw y (List.mem_cons_of_mem _ hy))
+    cases x with
+    | lost n =>
+      simp only [cntP, coverL_cons, List.mem_append, mem_coverSp]
+      refine ⟨ih.1, ?_⟩
+      rw [ih.2]; simp
+    | span a b rv =>
+      have hab := hw _ List.mem_cons_self a b rv rfl
+      simp only [cntP, coverL_cons, List.mem_append, mem_coverSp, decide_eq_true_eq]
+      constructor
+      · split <;> split <;> omega
+      · rw [← ih.2]
+        constructor
+        · intro h
+          by_cases hc : a ≤ p ∧ p < b
+          · left; exact ⟨a, b, rv, rfl, hc⟩
+          · right; intro h0; apply h; rw [h0]; split <;> split <;> omega
+        · rintro (⟨s, e, rv', h, h1, h2⟩ | h)
+          · injection h with h3 h4 _; subst h3; subst h4
+            rw [if_pos h1, if_neg (by omega)]; omega
+          · split <;> split <;> omega
+
+
+/-! ### covered(): sorted keys and the sweep -/
+
+def keys (d : List (Int × Int)) : List Int := d.map (·.1)
+
+theorem mem_keys_deltaAdd (k v : Int) (d : List (Int × Int)) (j : Int) :
+    j ∈ keys (deltaAdd k v d) ↔ j = k ∨ j ∈ keys d := by
+  induction d with
+  | nil => simp [deltaAdd, keys]
+  | cons x xs ih =>
+    obtain ⟨a, w⟩ := x
+    simp only [deltaAdd]
+    split
+    · rename_i h; subst h; simp [keys]
+    · simp only [keys, List.map_cons, List.mem_cons] at ih ⊢
+      rw [ih]; constructor <;> (intro h; rcases h with h | h | h <;> simp [h])
+
+theorem keys_nodup_deltaAdd (k v : Int) (d : List (Int × Int)) (h : (keys d).Nodup) :
+    (keys (deltaAdd k v d)).Nodup := by
+  induction d with
+  | nil => simp [deltaAdd, keys]
+  | cons x xs ih =>
+    obtain ⟨a, w⟩ := x
+    simp only [deltaAdd]
+    simp only [keys, List.map_cons, List.nodup_cons] at h
+    split
+    · simpa [keys] using h
+    · rename_i hne
+      simp only [keys, List.map_cons, List.nodup_cons]
+      refine ⟨?_, ih h.2⟩
+      intro hm
+      have := (mem_keys_deltaAdd k v xs a).1 hm
+      rcases this with h1 | h1
+      · exact hne h1
+      · exact h.1 h1
+
+theorem keys_nodup_foldl (l : List FSp) (d : List (Int × Int)) (h : (keys d).Nodup) :
+    (keys (l.foldl deltaStep d)).Nodup := by
+  induction l generalizing d with
+  | nil => exact h
+  | cons x xs ih =>
+    cases x with
+    | lost n => exact ih d h
+    | span a b rv => exact ih _ (keys_nodup_deltaAdd _ _ _ (keys_nodup_deltaAdd _ _ _ h))
+
+theorem mem_insertKey (kv x : Int × Int) (L : List (Int × Int)) :
+    x ∈ insertKey kv L ↔ x = kv ∨ x ∈ L := by
+  induction L with
+  | nil => simp [insertKey]
+  | cons y ys ih =>
+    simp only [insertKey]
+    split
+    · simp
+    · simp only [List.mem_cons, ih]
+      constructor <;> (intro h; rcases h with h | h | h <;> simp [h])
+
+def SSorted (L : List (Int × Int)) : Prop := L.Pairwise (fun a b => a.1 < b.1)
+
+theorem ssorted_insertKey (kv : Int × Int) (L : List (Int × Int)) (h : SSorted L)
+    (hk : kv.1 ∉ keys L) : SSorted (insertKey kv L) := by
+  induction L with
+  | nil => simp [insertKey, SSorted]
+  | cons y ys ih =>
+    simp only [SSorted, List.pairwise_cons] at h
+    simp only [keys, List.map_cons, List.mem_cons, not_or] at hk
+    simp only [insertKey]
+    split
+    · rename_i hle
+      simp only [SSorted, List.pairwise_cons]
+      refine ⟨?_, h.1, h.2⟩
+      intro z hz
+      simp only [List.mem_cons] at hz
+      rcases hz with rfl | hz
+      · omega
+      · have := h.1 z hz; omega
+    · rename_i hle
+      simp only [SSorted, List.pairwise_cons]
+      refine ⟨?_, ih h.2 hk.2⟩
+      intro z hz
+      rcases (mem_insertKey kv z ys).1 hz with rfl | hz
+      · omega
+      · exact h.1 z hz
+
+theorem mem_sorted (d : List (Int × Int)) (x : Int × Int) :
+    x ∈ d.foldr insertKey [] ↔ x ∈ d := by
+  induction d with
+  | nil => simp
+  | cons y ys ih => simp only [List.foldr_cons, mem_insertKey, ih, List.mem_cons]
+
+theorem ssorted_sorted (d : List (Int × Int)) (h : (keys d).Nodup) : SSorted (d.foldr insertKey []) := by
+  induction d with
+  | nil => simp [SSorted]
+  | cons y ys ih =>
+    simp only [keys, List.map_cons, List.nodup_cons] at h
+    simp only [List.foldr_cons]
+    apply ssorted_insertKey _ _ (ih h.2)
+    intro hm
+    apply h.1
+    simp only [keys, List.mem_map] at hm ⊢
+    obtain ⟨z, hz, hz1⟩ := hm
+    exact ⟨z, (mem_sorted ys z).1 hz, hz1⟩
+
+/-- depth just after position `p` when the sweep is in state `y` in front of `L` -/
+def depth (y : Int) (L : List (Int × Int)) (p : Int) : Int := y + dsum (fun k => decide (k ≤ p)) L
+
+def inLocs (locs : List (Int × Int)) (p : Int) : Prop := ∃ ab ∈ locs, ab.1 ≤ p ∧ p < ab.2
+
+theorem dsum_none (p : Int) (L : List (Int × Int)) (h : ∀ x ∈ L, p < x.1) :
+    dsum (fun k => decide (k ≤ p)) L = 0 := by
+  induction L with
+  | nil => rfl
+  | cons x xs ih =>
+    obtain ⟨a, w⟩ := x
+    have := h (a, w) List.mem_cons_self
+    simp only [dsum, decide_eq_true_eq] at *
+    rw [if_neg (by omega), ih (fun z hz => h z (List.mem_cons_of_mem _ hz))]; rfl
+
+/-- the sweep of `covered()` emits exactly the maximal runs of non-zero depth -/
+theorem sweep_spec : ∀ (L : List (Int × Int)) (y : Int) (start : Option Int) (lb : Int) (locs : List (Int × Int)),
+    SSorted L → (∀ x ∈ L, lb ≤ x.1) →
+    (y ≠ 0 → ∃ s0, start = some s0 ∧ s0 ≤ lb) → (y = 0 → start = none) →
+    y + dsum (fun _ => true) L = 0 →
+    sweep y start L = .ok locs →
+    (∀ p, lb ≤ p → (inLocs locs p ↔ depth y L p ≠ 0)) ∧
+    (∀ ab ∈ locs, (start.getD lb) ≤ ab.1) ∧
+    (y ≠ 0 → ∃ b, (start.getD lb, b) ∈ locs ∧ lb ≤ b)
+  | [], y, start, lb, locs, _, _, hs1, hs0, htot, h => by
+    simp only [sweep] at h
+    injection h with h; subst h
+    simp only [dsum] at htot
+    refine ⟨?_, by simp, by intro h; omega⟩
+    intro p _
+    simp only [inLocs, depth, dsum]
+    constructor
+    · rintro ⟨ab, hab, _⟩; simp at hab
+    · intro h; omega
+  | (x, d) :: r, y, start, lb, locs, hS, hlb, hs1, hs0, htot, h => by
+    simp only [SSorted, List.pairwise_cons] at hS
+    have hx := hlb (x, d) List.mem_cons_self
+    simp only [] at hx
+    have hr : ∀ z ∈ r, x ≤ z.1 := fun z hz => by have := hS.1 z hz; omega
+    have hr' : ∀ z ∈ r, x < z.1 := fun z hz => by have := hS.1 z hz; simpa using this
+    have htot' : (y + d) + dsum (fun _ => true) r = 0 := by
+      simp only [dsum, if_true] at htot; omega
+    have hdep : ∀ p, x ≤ p → depth y ((x, d) :: r) p = depth (y + d) r p := by
+      intro p hp; simp only [depth, dsum, decide_eq_true_eq]; rw [if_pos hp]; omega
+    have hdep0 : ∀ p, p < x → depth y ((x, d) :: r) p = y := by
+      intro p hp
+      have := dsum_none p ((x, d) :: r) (by
+        intro z hz; simp only [List.mem_cons] at hz
+        rcases hz with rfl | hz
+        · exact hp
+        · have := hr' z hz; omega)
+      simp only [depth, this]; omega
+    simp only [sweep] at h
+    split at h
+    · -- a run starts at x
+      rename_i hc
+      have hst := hs0 hc.2
+      subst hst
+      simp only [Option.isSome_none, Bool.false_eq_true, if_false] at h
+      obtain ⟨A, B, C⟩ := sweep_spec r (y + d) (some x) x locs hS.2 hr
+        (fun _ => ⟨x, rfl, by omega⟩) (fun h0 => absurd h0 hc.1) htot' h
+      simp only [Option.getD_some] at B C
+      refine ⟨?_, ?_, fun h0 => absurd hc.2 h0⟩
+      · intro p hp
+        by_cases hpx : x ≤ p
+        · rw [hdep p hpx]; exact A p hpx
+        · rw [hdep0 p (by omega)]
+          constructor
+          · rintro ⟨ab, hab, h1, _⟩
+            have := B ab hab; omega
+          · intro h0; exact absurd hc.2 h0
+      · intro ab hab
+        have := B ab hab
+        simp only [Option.getD_none]; omega
+    · split at h
+      · -- a run ends at x
+        rename_i _ hc
+        obtain ⟨s0, hs, hs0le⟩ := hs1 hc.1
+        subst hs
+        cases hrest : sweep (y + d) none r with
+        | error er => rw [hrest] at h; cases h
+        | ok rest =>
+          rw [hrest] at h
+          simp only [Option.getD_some] at h
+          injection h with h; subst h
+          obtain ⟨A, B, _⟩ := sweep_spec r (y + d) none x rest hS.2 hr
+            (fun h0 => absurd hc.2 h0) (fun _ => rfl) htot' hrest
+          simp only [Option.getD_none] at B
+          refine ⟨?_, ?_, ?_⟩
+          · intro p hp
+            by_cases hpx : x ≤ p
+            · rw [hdep p hpx, ← A p hpx]
+              simp only [inLocs, List.mem_cons]
+              constructor
+              · rintro ⟨ab, (rfl | hab), h1, h2⟩
+                · simp only [] at h2; omega
+                · exact ⟨ab, hab, h1, h2⟩
+              · rintro ⟨ab, hab, h1, h2⟩; exact ⟨ab, Or.inr hab, h1, h2⟩
+            · rw [hdep0 p (by omega)]
+              constructor
+              · intro _; exact hc.1
+              · intro _; exact ⟨(s0, x), List.mem_cons_self, by simp only []; omega, by simp only []; omega⟩
+          · intro ab hab
+            simp only [List.mem_cons] at hab
+            simp only [Option.getD_some]
+            rcases hab with rfl | hab
+            · simp
+            · have := B ab hab; omega
+          · intro _
+            simp only [Option.getD_some]
+            exact ⟨x, List.mem_cons_self, hx⟩
+      · -- no change of state
+        rename_i hc1 hc2
+        by_cases hy : y = 0
+        · have hy' : y + d = 0 := by
+            by_cases h0 : y + d = 0
+            · exact h0
+            · exact absurd ⟨h0, hy⟩ hc1
+          have hst := hs0 hy
+          subst hst
+          obtain ⟨A, B, _⟩ := sweep_spec r (y + d) none x locs hS.2 hr
+            (fun h0 => absurd hy' h0) (fun _ => rfl) htot' h
+          simp only [Option.getD_none] at B ⊢
+          refine ⟨?_, ?_, fun h0 => absurd hy h0⟩
+          · intro p hp
+            by_cases hpx : x ≤ p
+            · rw [hdep p hpx]; exact A p hpx
+            · rw [hdep0 p (by omega)]
+              constructor
+              · rintro ⟨ab, hab, h1, _⟩
+                have := B ab hab; omega
+              · intro h0; exact absurd hy h0
+          · intro ab hab
+            have := B ab hab; omega
+        · have hy' : y + d ≠ 0 := by
+            intro h0; exact hc2 ⟨hy, h0⟩
+          obtain ⟨s0, hs, hs0le⟩ := hs1 hy
+          subst hs
+          obtain ⟨A, B, C⟩ := sweep_spec r (y + d) (some s0) x locs hS.2 hr
+            (fun _ => ⟨s0, rfl, by omega⟩) (fun h0 => absurd h0 hy') htot' h
+          simp only [Option.getD_some] at B C ⊢
+          obtain ⟨b, hb, hxb⟩ := C hy'
+          refine ⟨?_, B, fun _ => ⟨b, hb, by omega⟩⟩
+          intro p hp
+          by_cases hpx : x ≤ p
+          · rw [hdep p hpx]; exact A p hpx
+          · rw [hdep0 p (by omega)]
+            constructor
+            · intro _; exact hy
+            · intro _; exact ⟨(s0, b), hb, by simp only []; omega, by simp only []; omega⟩
+
+
+/-! ### covered(): membership -/
+
+theorem spansFromLocs_mem (pl p : Int) : ∀ (locs : List (Int × Int)) (sp : List FSp),
+    spansFromLocs pl locs = .ok sp → (some p ∈ coverL sp ↔ inLocs locs p ∧ p < pl)
+  | [], sp, h => by
+    simp [spansFromLocs] at h; subst h; simp [inLocs]
+  | (s, e) :: r, sp, h => by
+    unfold spansFromLocs at h
+    split at h
+    · cases h
+    · split at h
+      · cases h
+      · split at h
+        · cases h
+        · rename_i hc1 hc2 _ rest hr
+          have ih := spansFromLocs_mem pl p r rest hr
+          have hin : inLocs ((s, e) :: r) p ↔ (s ≤ p ∧ p < e) ∨ inLocs r p := by
+            simp only [inLocs, List.mem_cons]
+            constructor
+            · rintro ⟨ab, (rfl | hab), h1⟩
+              · left; exact h1
+              · right; exact ⟨ab, hab, h1⟩
+            · rintro (h1 | ⟨ab, hab, h1⟩)
+              · exact ⟨(s, e), Or.inl rfl, h1⟩
+              · exact ⟨ab, Or.inr hab, h1⟩
+          have hsp : ∀ a b : Int, (some p ∈ coverSp (.span a b false) ↔ a ≤ p ∧ p < b) := by
+            intro a b; rw [mem_coverSp]
+            constructor
+            · rintro ⟨s', e', rv', h, h1⟩; injection h with x y z; subst x; subst y; exact h1
+            · intro h; exact ⟨a, b, false, rfl, h⟩
+          split at h
+          · injection h with h; subst h
+            simp only [coverL_cons, List.mem_append, hsp, ih, hin]
+            have : some p ∉ coverSp (.lost (e - pl)) := by simp [coverSp]
+            constructor
+            · rintro (h1 | h1 | h1)
+              · exact ⟨Or.inl ⟨h1.1, by omega⟩, h1.2⟩
+              · exact absurd h1 this
+              · exact ⟨Or.inr h1.1, h1.2⟩
+            · rintro ⟨h1 | h1, h2⟩
+              · left; exact ⟨h1.1, h2⟩
+              · right; right; exact ⟨h1, h2⟩
+          · injection h with h; subst h
+            simp only [coverL_cons, List.mem_append, hsp, ih, hin]
+            constructor
+            · rintro (h1 | h1)
+              · exact ⟨Or.inl h1, by omega⟩
+              · exact ⟨Or.inr h1.1, h1.2⟩
+            · rintro ⟨h1 | h1, h2⟩
+              · left; exact h1
+              · right; exact ⟨h1, h2⟩
+
+theorem fromLocations_mem (locs : List (Int × Int)) (pl p : Int) (c : FM)
+    (h : fromLocations locs pl = .ok c) : (some p ∈ cover c ↔ inLocs locs p ∧ p < pl) := by
+  unfold fromLocations at h
+  split at h
+  · cases h
+  · rename_i sp hs
+    injection h with h; subst h
+    rw [cover_eq_coverL]
+    simp only []
+    cases locs with
+    | nil =>
+      simp [spansFromLocations] at hs; subst hs; simp [inLocs]
+    | cons first rest =>
+      unfold spansFromLocations at hs
+      split at hs
+      · split at hs
+        · cases hs
+        · exact spansFromLocs_mem pl p _ sp hs
+      · rename_i hno
+        exfalso
+        cases hl : (first :: rest).getLast? with
+        | none => simp at hl
+        | some last => exact hno first rest last rfl hl
+
+theorem covered_unfold (m : FM) : covered m =
+    match sweep 0 none ((m.spans.foldl deltaStep []).foldr insertKey []) with
+    | .error e => .error e
+    | .ok locs => fromLocations locs m.parentLength := rfl
+
+/-- `covered()`: the result covers exactly the parent positions covered by the map -/
+theorem covered_mem (m c : FM) (hw : Within m) (h : covered m = .ok c) (p : Int) :
+    some p ∈ cover c ↔ some p ∈ cover m := by
+  rw [covered_unfold] at h
+  split at h
+  · cases h
+  · rename_i locs hsw
+    rw [fromLocations_mem locs m.parentLength p c h]
+    have hord : ∀ x ∈ m.spans, ∀ s e rv, x = FSp.span s e rv → s ≤ e := by
+      intro x hx s e rv hxe; subst hxe
+      have := hw _ hx; simp only [FSp.within] at this; omega
+    have hS := ssorted_sorted (m.spans.foldl deltaStep []) (keys_nodup_foldl _ _ (by simp [keys]))
+    have htot : (0 : Int) + dsum (fun _ => true) ((m.spans.foldl deltaStep []).foldr insertKey []) = 0 := by
+      rw [dsum_sorted, dsum_foldl, cntP_true]; simp [dsum]
+    have hdepth : depth 0 ((m.spans.foldl deltaStep []).foldr insertKey []) p ≠ 0 ↔ some p ∈ cover m := by
+      simp only [depth]
+      rw [dsum_sorted, dsum_foldl]
+      simp only [dsum]
+      have := (cntP_le_nonneg p m.spans hord).2
+      rw [cover_eq_coverL, ← this]
+      constructor <;> (intro h1 h2; apply h1; omega)
+    have key : inLocs locs p ↔ some p ∈ cover m := by
+      rw [← hdepth]
+      generalize hL : (m.spans.foldl deltaStep []).foldr insertKey [] = L at *
+      cases L with
+      | nil =>
+        exact (sweep_spec [] 0 none p locs hS (by simp) (fun h0 => absurd rfl h0) (fun _ => rfl) htot hsw).1 p (by omega)
+      | cons x r =>
+        have hx : ∀ z ∈ x :: r, min p x.1 ≤ z.1 := by
+          intro z hz
+          simp only [List.mem_cons] at hz
+          rcases hz with rfl | hz
+          · omega
+          · simp only [SSorted, List.pairwise_cons] at hS
+            have := hS.1 z hz; omega
+        exact (sweep_spec (x :: r) 0 none (min p x.1) locs hS hx (fun h0 => absurd rfl h0) (fun _ => rfl) htot hsw).1 p (by omega)
+    rw [key]
+    constructor
+    · exact fun h1 => h1.1
+    · intro h1
+      refine ⟨h1, ?_⟩
+      rw [cover_eq_coverL, mem_coverL] at h1
+      obtain ⟨s, e, rv, hx, _, h2⟩ := h1
+      have := hw _ hx; simp only [FSp.within] at this; omega
+
 end CogentModel.FMap
